@@ -448,7 +448,7 @@ func c06Keywords(c *Ctx, sx *symx.Ctx) {
 			good := false
 			if first != nil {
 				a := first.Common().Args
-				if ssau.IsNilConst(a[0]) {
+				if ssau.IsNilConst(a[0]) || emptyFresh(a[0]) {
 					if base, ok := ssau.IsFieldLoad(a[1], nlpPkg+".ProcessedQuery", "Keywords"); ok && (base == ssa.Value(fn.Params[0]) || ssau.ParamOf(base) == fn.Params[0]) {
 						good = true
 					}
@@ -499,6 +499,31 @@ func firstAppend(v ssa.Value, d int) *ssa.Call {
 	return nil
 }
 
+// emptyFresh: a slice made here with length zero (pre-sized or not) that is
+// only appended to: as a chain start it is the same as nil.
+func emptyFresh(v ssa.Value) bool {
+	mk, ok := v.(*ssa.MakeSlice)
+	if !ok {
+		return false
+	}
+	z, isC := ssau.ConstInt(mk.Len)
+	if !isC || z != 0 {
+		return false
+	}
+	for _, ref := range *mk.Referrers() {
+		switch r := ref.(type) {
+		case *ssa.Call:
+			if ssau.CallName(r) != "builtin.append" || r.Common().Args[0] != ssa.Value(mk) {
+				return false
+			}
+		case *ssa.DebugRef, *ssa.Phi:
+		default:
+			return false
+		}
+	}
+	return true
+}
+
 // appendOnly: v is built from nil by appends (and phis of such).
 func appendOnly(v ssa.Value, d int) bool {
 	if d > 40 {
@@ -507,6 +532,8 @@ func appendOnly(v ssa.Value, d int) bool {
 	switch x := v.(type) {
 	case *ssa.Const:
 		return x.Value == nil
+	case *ssa.MakeSlice:
+		return emptyFresh(x)
 	case *ssa.Call:
 		if ssau.CallName(x) == "builtin.append" {
 			return appendOnly(x.Common().Args[0], d+1)
